@@ -76,8 +76,9 @@ impl Check for C10 {
                 .map(|_| {
                     let h = g.range(0, nh - 1);
                     // (a SOCKS5 request cannot carry a name of more than 255 bytes)
-                    let via = if hosts[h as usize]["dns"] == "overlong" { *g.pick(&["direct", "direct", "http"]) } else { *g.pick(&["direct", "socks5", "socks5", "http"]) };
-                    json!({"host": h, "port": g.range(1, 65_535), "via": via, "start_ms": *g.pick(&[0u64, 0, 0, 1, 20, 5_000]), "early": g.chance(50)})
+                    let via = if hosts[h as usize]["dns"] == "overlong" { *g.pick(&["direct", "direct", "http"]) } else { *g.pick(&["direct", "socks5", "socks5", "http", "raw"]) };
+                    // (raw: a peer other than the project's client, its destination header spread over 1-6 data frames)
+                    json!({"host": h, "port": if g.chance(30) { *g.pick(&[1u64, 255, 256, 257, 511, 65_535, 65_280]) } else { g.range(1, 65_535) }, "via": via, "start_ms": *g.pick(&[0u64, 0, 0, 1, 20, 5_000]), "early": g.chance(50), "pieces": g.range(1, 6)})
                 })
                 .collect();
             json!({"net": net, "mode": "real", "hosts": hosts, "reqs": reqs})
@@ -140,7 +141,7 @@ impl Check for C10 {
         out
     }
     fn rule(&self) -> &'static str {
-        "one case = (down mode, 1 case in 7) the proxy server itself refuses connections (at once or after up to 4 s), closes them, answers with something that is not TLS, rejects the password, dies right after the TLS handshake, or crashes (listener gone, every connection cut) after serving 1-3 requests: 1-4 requests through create_proxy_stream / SOCKS5 / HTTP CONNECT must each complete promptly with an error and exactly one failure reply, dial nothing, and once the server is (re)started 1-3 further requests must succeed; or (real mode) 1-6 possibly concurrent requests through create_proxy_stream / SOCKS5 / HTTP CONNECT to 1-4 hosts whose targets accept (after 0-14 s or after more than 15 s), refuse (at once or late) or black-hole and whose names resolve, resolve slowly, fail, are unknown, hang, or are too long to be encoded (the request fails locally after its stream was opened and must leave the pooled session usable); or (script mode) 1-6 racing opens against a scripted TLS server answering each open with an empty SYNACK at 0..29 s / around 30 s +-300 ms / after 30 s, an error text, twice, for an unknown id first, never, by killing the session at a seeded instant (connection cut, fatal alert), or by breaking the connection for the client's writes only (the next write on that session fails: the SYN of a later open that reuses it); oracle on virtual time, the simulated network's connect log and every byte the local application receives; every case is non-trivial; distinct = distinct (plan hash, poll-order fingerprint)"
+        "one case = (down mode, 1 case in 7) the proxy server itself refuses connections (at once or after up to 4 s), closes them, answers with something that is not TLS, rejects the password, dies right after the TLS handshake, or crashes (listener gone, every connection cut) after serving 1-3 requests: 1-4 requests through create_proxy_stream / SOCKS5 / HTTP CONNECT must each complete promptly with an error and exactly one failure reply, dial nothing, and once the server is (re)started 1-3 further requests must succeed; or (real mode) 1-6 possibly concurrent requests through create_proxy_stream / SOCKS5 / HTTP CONNECT / a raw TLS peer whose destination header is spread over 1-6 data frames (the last cut between the two port bytes) to 1-4 hosts whose targets accept (after 0-14 s or after more than 15 s), refuse (at once or late) or black-hole and whose names resolve, resolve slowly, fail, are unknown, hang, or are too long to be encoded (the request fails locally after its stream was opened and must leave the pooled session usable); or (script mode) 1-6 racing opens against a scripted TLS server answering each open with an empty SYNACK at 0..29 s / around 30 s +-300 ms / after 30 s, an error text, twice, for an unknown id first, never, by killing the session at a seeded instant (connection cut, fatal alert), or by breaking the connection for the client's writes only (the next write on that session fails: the SYN of a later open that reuses it); oracle on virtual time, the simulated network's connect log and every byte the local application receives; every case is non-trivial; distinct = distinct (plan hash, poll-order fingerprint)"
     }
     fn real_components(&self) -> Vec<&'static str> {
         vec!["Client::create_proxy_stream (30 s SYNACK wait), session pool", "SOCKS5 and HTTP front-ends (reply / status)", "Session (client)", "real mode: Server::listen, TcpProxyHandler (15 s connect timeout, SYNACK with reason), resolve_host_with_cache (10 s)", "rustls both ways"]
@@ -150,6 +151,53 @@ impl Check for C10 {
     }
     fn assumptions(&self) -> Vec<&'static str> {
         vec!["answers landing within +-300 ms of the 30 s deadline accept either outcome", "2 s of slack on every virtual-time bound for session set-up and scheduling"]
+    }
+}
+
+/// raw TLS peer: preamble, Settings, SYN, the destination spread over `pieces` PSH frames; the verdict is the SYNACK
+async fn raw_open(host: &str, port: u16, pieces: usize) -> Result<tokio_rustls::client::TlsStream<TcpStream>, String> {
+    let connector = crate::fixtures::connector();
+    let tcp = TcpStream::connect(SERVER_ADDR).await.map_err(|e| e.to_string())?;
+    let mut tls = timeout(Duration::from_secs(60), connector.connect("localhost".try_into().unwrap(), tcp)).await.map_err(|_| "tls timeout".to_string())?.map_err(|e| e.to_string())?;
+    let mut bytes = Vec::new();
+    bytes.extend_from_slice(&crate::checks::c06::sha(PASSWORD));
+    bytes.extend_from_slice(&[0, 0]);
+    bytes.extend(rc::encode(rc::SETTINGS, 0, b"v=2\nclient=raw\npadding-md5=x"));
+    bytes.extend(rc::encode(rc::SYN, 1, b""));
+    let dest = socks_addr_bytes(host, port);
+    // the last cut always separates the two port bytes when there is more than one piece
+    let n = dest.len();
+    let pieces = std::cmp::max(1, std::cmp::min(pieces, n));
+    let mut cuts: Vec<usize> = (1..pieces.saturating_sub(1)).map(|k| k * (n - 1) / pieces).filter(|c| *c > 0).collect();
+    if pieces > 1 {
+        cuts.push(n - 1);
+    }
+    cuts.push(n);
+    cuts.dedup();
+    let mut pos = 0;
+    for c in cuts {
+        if c > pos {
+            bytes.extend(rc::encode(rc::PSH, 1, &dest[pos..c]));
+            pos = c;
+        }
+    }
+    tls.write_all(&bytes).await.map_err(|e| e.to_string())?;
+    tls.flush().await.map_err(|e| e.to_string())?;
+    let mut acc = Vec::new();
+    let mut b = vec![0u8; 4096];
+    let deadline = tokio::time::Instant::now() + Duration::from_secs(100);
+    loop {
+        match tokio::time::timeout_at(deadline, tls.read(&mut b)).await {
+            Ok(Ok(n)) if n > 0 => {
+                acc.extend_from_slice(&b[..n]);
+                let (frames, _) = rc::parse_all(&acc);
+                if let Some(f) = frames.iter().find(|f| f.cmd == rc::SYNACK && f.sid == 1) {
+                    return if f.data.is_empty() { Ok(tls) } else { Err(String::from_utf8_lossy(&f.data).to_string()) };
+                }
+            }
+            Ok(Ok(_)) | Ok(Err(_)) => return Err("connection ended without an answer".into()),
+            Err(_) => return Err("no answer within 100 s".into()),
+        }
     }
 }
 
@@ -240,6 +288,14 @@ async fn do_request(client: Arc<anytls_rs::client::Client>, via: &str, host: &st
                 std::future::pending::<()>().await;
             }
         }
+        v if v.starts_with("raw") => match raw_open(host, port, v[3..].parse().unwrap_or(1)).await {
+            Ok(tls) => {
+                fin(true, String::new(), vec![]);
+                let _keep = tls;
+                std::future::pending::<()>().await;
+            }
+            Err(e) => fin(false, e, vec![]),
+        },
         _ => match client.create_proxy_stream((host.to_string(), port)).await {
             Ok((st, sess)) => {
                 fin(true, String::new(), vec![]);
@@ -310,7 +366,9 @@ async fn run_real(plan: &Value) -> Outcome {
         let (c, res2, r2) = (client.clone(), res.clone(), r.clone());
         anytls_simnet::spawn(async move {
             sleep(Duration::from_millis(r2["start_ms"].as_u64().unwrap_or(0))).await;
-            do_request(c, r2["via"].as_str().unwrap_or("direct"), h["host"].as_str().unwrap_or(""), r2["port"].as_u64().unwrap_or(1) as u16, r2["early"].as_bool().unwrap_or(false), res2, i).await;
+            let via = r2["via"].as_str().unwrap_or("direct");
+            let via = if via == "raw" { format!("raw{}", r2["pieces"].as_u64().unwrap_or(1)) } else { via.to_string() };
+            do_request(c, &via, h["host"].as_str().unwrap_or(""), r2["port"].as_u64().unwrap_or(1) as u16, r2["early"].as_bool().unwrap_or(false), res2, i).await;
         });
     }
     sleep(Duration::from_secs(150)).await;
@@ -355,7 +413,7 @@ async fn run_real(plan: &Value) -> Outcome {
             }
         } else if expect_ok {
             out.viol("failure-unexpected", format!("failure-unexpected:{}:{}:{}", via, policy, dns), format!("request #{} ({} to an accepting target) failed: {:?} after {} ms", i, via, rr.text, took / 1000));
-        } else if via == "direct" {
+        } else if via == "direct" || via == "raw" {
             // the server's reason must reach the caller when the server could not connect
             let reason_expected = match (resolvable, policy) {
                 (true, "refuse") | (true, "refuse_slow") => Some("Failed to connect"),
